@@ -352,6 +352,8 @@ class C10(core.Prop):
             return F
         if case['kind'] == 'cmdline':
             argv = case['argv']
+            if c19.flag_after_write(argv):
+                return F
             want = c19.spec_argv(argv)
             if want['err']:
                 return F
